@@ -12,6 +12,7 @@ import (
 	"io"
 	"strconv"
 	"strings"
+	"time"
 
 	"github.com/mutagen-io/mutagen/pkg/multiplexing/ring"
 
@@ -323,15 +324,40 @@ func genOp(r *hx.Rand, c int, next *byte) string {
 	}
 }
 
+// watchdog runs one case with panic isolation and a time limit, so that a
+// defect that makes the code under test loop forever is reported as a failing
+// case (class=hang) instead of stalling the whole check.
+func watchdog(f func() (string, string)) (impl, oracle string, ok bool) {
+	type res struct{ impl, oracle string }
+	ch := make(chan res, 1)
+	go func() {
+		var o string
+		i := hx.Try(func() string {
+			a, b := f()
+			o = b
+			return a
+		})
+		ch <- res{i, o}
+	}()
+	select {
+	case r := <-ch:
+		return r.impl, r.oracle, true
+	case <-time.After(10 * time.Second):
+		return "hang", "class=hang no answer within 10s", false
+	}
+}
+
 func main() {
 	hx.Main("C26", func(c *hx.Ctx) {
+		hung := false
 		emit := func(line string) {
-			var oracle string
-			impl := hx.Try(func() string {
-				i, o := runCase(line)
-				oracle = o
-				return i
-			})
+			if hung {
+				return // a case never returned: its goroutine is still spinning, stop here
+			}
+			impl, oracle, ok := watchdog(func() (string, string) { return runCase(line) })
+			if !ok {
+				hung = true
+			}
 			if strings.HasPrefix(impl, "panic:") {
 				oracle = "class=panic " + impl
 			}
